@@ -22,7 +22,8 @@ for p in props:
         c = json.load(open(f))
     except Exception:
         c = {}
-    ready = all(k in c and c[k] and c[k] != "placeholder" for k in ("harness", "level_text", "level_note", "technique")) \
+    claimed = set(json.load(open(os.path.join(V, "claimed.json")))["claimed"]) if os.path.exists(os.path.join(V, "claimed.json")) else set()
+    ready = pid in claimed and all(k in c and c[k] and c[k] != "placeholder" for k in ("harness", "level_text", "level_note", "technique")) \
         and os.path.exists(os.path.join(V, "coq", "Properties", pid + ".v")) \
         and os.path.exists(os.path.join(V, "coq", "Run", pid + "_run.v")) \
         and os.path.exists(os.path.join(V, "evidence", pid + ".json"))
